@@ -68,7 +68,7 @@ Definition model_skeletons : list (string * string) := [
   ("server.on_att_read_request",
    "(self,bearer,request){if (attribute := self.get_attribute(request.attribute_handle)){try{value = await attribute.read_value(bearer)}except att.ATT_Error{response = att.ATT_Error_Response(request_opcode_in_error=request.op_code, attribute_handle_in_error=request.attribute_handle, error_code=error.error_code)}else{value_size = min(bearer.att_mtu - 1, len(value));response = att.ATT_Read_Response(attribute_value=value[:value_size])}}else{response = att.ATT_Error_Response(request_opcode_in_error=request.op_code, attribute_handle_in_error=request.attribute_handle, error_code=att.ATT_INVALID_HANDLE_ERROR)};self.send_response(bearer, response)}");
   ("server.on_att_read_blob_request",
-   "(self,bearer,request){if (attribute := self.get_attribute(request.attribute_handle)){try{value = await attribute.read_value(bearer)}except att.ATT_Error{response = att.ATT_Error_Response(request_opcode_in_error=request.op_code, attribute_handle_in_error=request.attribute_handle, error_code=error.error_code)}else{if request.value_offset > len(value){response = att.ATT_Error_Response(request_opcode_in_error=request.op_code, attribute_handle_in_error=request.attribute_handle, error_code=att.ATT_INVALID_OFFSET_ERROR)}else{if len(value) <= bearer.att_mtu - 1{response = att.ATT_Error_Response(request_opcode_in_error=request.op_code, attribute_handle_in_error=request.attribute_handle, error_code=att.ATT_ATTRIBUTE_NOT_LONG_ERROR)}else{part_size = min(bearer.att_mtu - 1, len(value) - request.value_offset);response = att.ATT_Read_Blob_Response(part_attribute_value=value[request.value_offset:request.value_offset + part_size])}}}}else{response = att.ATT_Error_Response(request_opcode_in_error=request.op_code, attribute_handle_in_error=request.attribute_handle, error_code=att.ATT_INVALID_HANDLE_ERROR)};self.send_response(bearer, response)}");
+   "(self,bearer,request){if (attribute := self.get_attribute(request.attribute_handle)){try{value = await attribute.read_value(bearer)}except att.ATT_Error{response = att.ATT_Error_Response(request_opcode_in_error=request.op_code, attribute_handle_in_error=request.attribute_handle, error_code=error.error_code)}else{if request.value_offset > len(value){response = att.ATT_Error_Response(request_opcode_in_error=request.op_code, attribute_handle_in_error=request.attribute_handle, error_code=att.ATT_INVALID_OFFSET_ERROR)}else{if request.value_offset == 0 and len(value) <= bearer.att_mtu - 1{response = att.ATT_Error_Response(request_opcode_in_error=request.op_code, attribute_handle_in_error=request.attribute_handle, error_code=att.ATT_ATTRIBUTE_NOT_LONG_ERROR)}else{part_size = min(bearer.att_mtu - 1, len(value) - request.value_offset);response = att.ATT_Read_Blob_Response(part_attribute_value=value[request.value_offset:request.value_offset + part_size])}}}}else{response = att.ATT_Error_Response(request_opcode_in_error=request.op_code, attribute_handle_in_error=request.attribute_handle, error_code=att.ATT_INVALID_HANDLE_ERROR)};self.send_response(bearer, response)}");
   ("server.on_att_write_request",
    "(self,bearer,request){attribute = self.get_attribute(request.attribute_handle);if attribute is None{self.send_response(bearer, att.ATT_Error_Response(request_opcode_in_error=request.op_code, attribute_handle_in_error=request.attribute_handle, error_code=att.ATT_INVALID_HANDLE_ERROR));return };if len(request.attribute_value) > GATT_MAX_ATTRIBUTE_VALUE_SIZE{self.send_response(bearer, att.ATT_Error_Response(request_opcode_in_error=request.op_code, attribute_handle_in_error=request.attribute_handle, error_code=att.ATT_INVALID_ATTRIBUTE_LENGTH_ERROR));return };try{await attribute.write_value(bearer, request.attribute_value)}except att.ATT_Error{response = att.ATT_Error_Response(request_opcode_in_error=request.op_code, attribute_handle_in_error=request.attribute_handle, error_code=error.error_code)}else{response = att.ATT_Write_Response()};self.send_response(bearer, response)}");
   ("server.on_att_write_command",
